@@ -13,8 +13,11 @@ import traceback
 VERIF_DIR = os.path.dirname(os.path.dirname(os.path.abspath(__file__)))
 REPO = os.path.realpath(os.environ.get('VERIF_REPO', '/repo'))
 FINDINGS_FILE = os.path.join(VERIF_DIR, 'KNOWN_FINDINGS.txt')
-EVIDENCE_DIR = os.path.join(VERIF_DIR, 'evidence')
-REPLAY_DIR = os.path.join(VERIF_DIR, 'replays')
+# VERIF_OUT redirects evidence and replays (used when the checks are pointed
+# at a scratch copy, so that /verif/evidence only ever describes /repo)
+_OUT = os.environ.get('VERIF_OUT') or VERIF_DIR
+EVIDENCE_DIR = os.path.join(_OUT, 'evidence')
+REPLAY_DIR = os.path.join(_OUT, 'replays')
 
 EXIT_HELD, EXIT_VIOLATION, EXIT_INCONCLUSIVE = 0, 1, 2
 
